@@ -988,6 +988,9 @@ def mon_C10_behaviour(blocks):
 # C11: store failures
 
 def mon_C11(blocks):
+    """Under injected store failures: a call that reports success has really stored what it acknowledges
+    (a failed flush of a session that stays cached loses nothing and may be ignored); any failed load, user
+    lookup, delete or listing makes the call fail; a failed load changes nothing."""
     out = []
     for b in blocks:
         a = b.ann
@@ -998,48 +1001,44 @@ def mon_C11(blocks):
             out.append(Violation(b.idx, "%s panicked under a store failure" % b.line))
             continue
         failed = [e for e in b.evs if e[-1] == "fail"]
-        own = set()
-        if b.ss:
-            own.add(_unq(b.ss["id"]))
-        pre = prev_ss(blocks, b) if k == "h" else None
-        if pre:
-            own.add(_unq(pre["id"]))
-        if k == "req" and b.inp and b.inp != "-":
-            own.add(b.inp)
-        needed = []
-        for e in failed:
-            kind, idv = e[0], _unq(e[1])
-            if kind == "save":
-                if k == "purge":
+        success = b.ret in ("ok", "sess", "nil") or (b.ret or "").startswith("val:")
+        hard = [e for e in failed if e[0] != "save"]
+        if k == "purge":
+            continue
+        if hard and success:
+            out.append(Violation(b.idx, "%s reported success although %s failed" % (b.line, " ".join(hard[0]))))
+            continue
+        if success and any(e[0] == "save" for e in failed):
+            getdel = k == "h" and b.tok[1] == "getdel"
+            if b.ss and not getdel and (k == "req" or (k == "h" and b.tok[1] in MUTATORS)):
+                sid_ = _unq(b.ss["id"])
+                why = coherent(b.ss, b.store.get(sid_), a.codec)
+                if why:
+                    out.append(Violation(b.idx, "%s reported success although a save failed and the store lacks the change: %s" % (b.line, why)))
                     continue
-                later_ok = any(x[0] == "save" and _unq(x[1]) == idv and x[-1] != "fail" and b.evs.index(x) > b.evs.index(e) for x in b.evs)
-                if k == "h" and b.tok[1] == "login" and b.tok[3] == "0" and idv in own and later_ok:
-                    continue  # the inner LogOut of a non-exclusive LogIn; the next line saves the session again
-                if k == "h" and b.tok[1] == "getdel":
-                    continue  # no error result in the signature
-                fresh = b.ss and idv == _unq(b.ss["id"])
-                if idv in a.pre_cache and idv not in own and not fresh:
-                    continue  # a flush during compaction: the session stays cached, nothing is lost
-                needed.append(e)
-            else:
-                needed.append(e)
-        if not needed:
-            continue
-        ok_rets = ("ok", "sess", "nil")
-        if b.ret in ok_rets or (b.ret or "").startswith("val:"):
-            out.append(Violation(b.idx, "%s reported success although %s failed" % (b.line, " ".join(needed[0]))))
-            continue
+            if k == "h" and b.tok[1] in ("regen", "login") and b.ss:
+                pre = prev_ss(blocks, b)
+                if pre is not None and _unq(pre["id"]) not in set(i for _, i in b.bg):
+                    old = b.store.get(_unq(pre["id"]))
+                    if old is None or old == "undecodable" or old["rf"] != b.ss["id"]:
+                        out.append(Violation(b.idx, "%s reported success although the save of the replaced id failed" % b.line))
+                        continue
+            if k in ("logoutuser",) or (k == "h" and b.tok[1] == "login" and b.tok[3] == "1"):
+                uid = _unq(b.tok[1] if k == "logoutuser" else b.tok[2])
+                own = _unq(b.ss["id"]) if b.ss else None
+                for key, f in b.store.items():
+                    if key != own and f != "undecodable" and f["us"] == uid and f["rf"] == "-":
+                        out.append(Violation(b.idx, "%s reported success although the save logging %s out of %s failed" % (b.line, uid, key)))
+                        break
         # a failed load is not "no such session"
-        if k == "req" and any(e[0] in ("load", "user") for e in needed):
+        if k == "req" and any(e[0] in ("load", "user") for e in failed):
             if b.cks:
                 out.append(Violation(b.idx, "cookie changed although the load failed"))
-            if any(e[0] in ("save", "del") and e[-1] != "fail" for e in b.evs):
-                # flushes of other sessions during compaction are not mutations of content; deletions and creations are
-                for e in b.evs:
-                    if e[0] == "del" and e[-1] != "fail":
-                        out.append(Violation(b.idx, "a record was deleted although the load failed"))
-                    if e[0] == "save" and e[-1] != "fail" and _unq(e[1]) not in a.pre_store:
-                        out.append(Violation(b.idx, "a session was created although the load failed"))
+            for e in b.evs:
+                if e[0] == "del" and e[-1] != "fail":
+                    out.append(Violation(b.idx, "a record was deleted although the load failed"))
+                if e[0] == "save" and e[-1] != "fail" and _unq(e[1]) not in a.pre_store:
+                    out.append(Violation(b.idx, "a session was created although the load failed"))
             if b.rng:
                 out.append(Violation(b.idx, "an id was generated although the load failed"))
     return out
